@@ -16,11 +16,15 @@ EXTENDS Integers, Sequences, TraceIO
 
 Kinds == {"ok", "ExceededExecutionBudget", "ValueStackOverflow", "ValueStackUnderflow", "InvalidJump", "InvalidDefinition",
           "CallStackOverflow", "CallStackUnderflow", "UnexpectedEndOfBytecode", "DefinitionInGlyphProgram", "UnhandledOpcode",
-          "NestedDefinition", "InvalidStackValue"}
+          "NestedDefinition", "InvalidStackValue", "InvalidCvtIndex", "NegativeLoopCounter", "InvalidPointIndex", "InvalidPointRange"}
 TVm == IsEvent("vm") /\ Ev.real \in Kinds /\ Ev.lax = "ok" /\ Ev.model \in Kinds
 TGraph == IsEvent("graph") /\ Ev.real \in {"ok", "error", "absent"} /\ Ev.ms <= 5000
           /\ (Ev.model = "ok" /\ Ev.real = "ok" => Ev.moves = Ev.leaves)       \* a loaded glyph has the modelled number of contours
 TDrive == IsEvent("drive") /\ Ev.outcome = "value"
+\* scratch memory (MemCarve.tla): the advertised size always suffices, anything else is Ok or InsufficientMemory
+TMem == IsEvent("mem") /\ Ev.outcome \in {"ok", "InsufficientMemory"} /\ (Ev.must_fit => Ev.outcome = "ok") /\ (Ev.outcome = "ok" => Ev.same)
+\* a chain of n nested paints / components run in a child process: a result, not a crash
+TDeep == IsEvent("deep") /\ Ev.outcome \in {"ok", "error"}
 TInit == l = 1
-TraceSpec == TInit /\ [][TVm \/ TGraph \/ TDrive]_l
+TraceSpec == TInit /\ [][TVm \/ TGraph \/ TDrive \/ TMem \/ TDeep]_l
 =============================================================================
